@@ -101,6 +101,14 @@ class DetectorDriver:
                 R[last['slot']] = cls(position=(1000.0 + self.tag, 0.0, 5.0 if last['above'] else -50.0))
             elif op == 'NewList':
                 R[last['slot']] = [R[i] for i in last['items']]
+            elif op == 'NewNested':
+                top = last['slot']
+                ids = [top - 4, top - 3]
+                for i_ in ids:
+                    self.tag += 1
+                    R[i_] = (AntA if self.tag % 2 else AntB)(position=(1000.0 + self.tag, 0.0, -50.0))
+                R[top - 2], R[top - 1] = [R[ids[0]]], [R[ids[1]]]
+                R[top] = [R[top - 2], R[top - 1]]
             elif op == 'NewStr':
                 self.tag += 1
                 s = (StrA if last['cls'] == 'A' else StrB)(last['n'], self.tag, above=bool(last['above']))
